@@ -537,6 +537,23 @@ func ruleLockBalance(c *Check, a *Analysis, rule string, locks ...string) {
 		}
 		may := ls.mayLocks(fn)
 		def := deferredUnlocks(fn)
+		for k := range def {
+			if !want[k] {
+				continue
+			}
+			// the deferred unlock runs at every return: the lock must be held there
+			eachInstr(fn, func(in ssa.Instruction) {
+				if _, isRet := in.(*ssa.Return); !isRet || (len(in.Block().Preds) == 0 && in.Block() != fn.Blocks[0]) {
+					return
+				}
+				d := firstDeferOf(fn, k)
+				if d == nil || !p.dominatesInstr(d, in) {
+					return
+				}
+				held := ls.at[in] == nil || ls.at[in][k]
+				c.Ob(rule, sc.key(fn, "deferred unlock finds "+k+" held"), p.InstrPos(in), held, ifs(!held, "the deferred unlock of "+k+" runs on a path on which the lock is not held"))
+			})
+		}
 		eachInstr(fn, func(in ssa.Instruction) {
 			if _, isRet := in.(*ssa.Return); isRet {
 				if len(in.Block().Preds) == 0 && in.Block() != fn.Blocks[0] {
@@ -579,6 +596,11 @@ func ruleLockBalance(c *Check, a *Analysis, rule string, locks ...string) {
 					}
 				}
 			}
+			if op, ok := lockOpOf(in); ok && want[op.key] && !op.acquire {
+				// an unlock must find the lock held on every path (unlock of an unlocked mutex is a fatal error)
+				held := ls.at[in] == nil || ls.at[in][op.key]
+				c.Ob(rule, sc.key(fn, "unlock finds "+op.key+" held"), p.InstrPos(in), held, ifs(!held, op.key+" is unlocked on a path on which it is not held: fatal 'unlock of unlocked mutex' (and the data it guards was touched without it)"))
+			}
 			if op, ok := lockOpOf(in); ok && want[op.key] && op.acquire {
 				// definitely held already (by this function, not by the caller contract)
 				held := ls.at[in] != nil && ls.at[in][op.key] && !ls.entry[fn][op.key]
@@ -586,4 +608,19 @@ func ruleLockBalance(c *Check, a *Analysis, rule string, locks ...string) {
 			}
 		})
 	}
+}
+
+func firstDeferOf(fn *ssa.Function, key string) ssa.Instruction {
+	var res ssa.Instruction
+	eachInstr(fn, func(in ssa.Instruction) {
+		d, ok := in.(*ssa.Defer)
+		if !ok || res != nil {
+			return
+		}
+		n := calleeNameCommon(d.Common())
+		if (n == "(*sync.Mutex).Unlock" || n == "(*sync.RWMutex).Unlock" || n == "(*sync.RWMutex).RUnlock") && len(d.Call.Args) > 0 && lockKeyOf(d.Call.Args[0]) == key {
+			res = in
+		}
+	})
+	return res
 }
